@@ -97,6 +97,10 @@ KDATA = [
     rest('4', ['yy']),
     # rests with a vertical position mark (kernpy keeps it as a signifier) and a note with two different articulation marks written in non-canonical order
     rest('4', ['gg'], src='4rgg'), rest('8', ['GG', ';'], src='8rGG;'), note('4', 'b', '', ["'", '~'], src="4b~'"),
+    # chords whose notes REPEAT a signifier (every note its own fermata / tie start / beam mark)
+    CH(note('4', 'c', '', [';']), note('4', 'e', '', [';']), note('4', 'g', '', [';'])),
+    CH(note('2', 'C', '', ['['], src='[2C'), note('2', 'E', '-', ['['], src='[2E-'), note('2', 'G', '', ['['], src='[2G')),
+    CH(note('8', 'd', '', ['L']), note('8', 'f', '#', ['/'], src='8f#/'), note('8', 'a', '', ['L'])),
     NULL_D,
 ]
 # duration-less notes and rests for **root columns (kernpy parses **root with the kern grammar)
